@@ -455,10 +455,13 @@ class ChainMultiallelic(Chain):
 
         def all_reads(kinds, psidx, rmax):
             opts = _read_options(len(kinds), psidx)
+            tagged = lambda r: any(kinds[i] == "b" for i in r)
             for R in range(1, rmax + 1):
                 for reads in itertools.combinations_with_replacement(opts, R):
-                    if len(kinds) >= 3 and not any(kinds[i] == "b" for r in reads for i in r):
+                    if len(kinds) >= 3 and not any(tagged(r) for r in reads):
                         continue  # no read can be tagged (V <= 2 keeps such read sets)
+                    if len(kinds) >= 3 and kinds.count("m") >= 2 and not all(tagged(r) for r in reads):
+                        continue  # two 2-ALT records (6 x 6 genotypes): only read sets in which every read votes
                     add(kinds, psidx, reads)
 
         if tier == "quick":
@@ -472,8 +475,8 @@ class ChainMultiallelic(Chain):
         else:
             for kinds in ("bmm", "mbm", "mmb"):
                 all_reads(kinds, (0, 0, 0), 2)
-            for kinds in ("bbm", "bmb", "mbb"):
-                for psidx in ((0, 0, 0), (0, 0, 1), (0, 1, 1)):
+            for kinds, psidxs in (("bbm", [(0, 0, 0), (0, 1, 1)]), ("bmb", [(0, 0, 0), (0, 0, 1), (0, 1, 1)]), ("mbb", [(0, 0, 0), (0, 0, 1)])):
+                for psidx in psidxs:  # every split in which the 2-ALT record shares its phase set with a biallelic one
                     all_reads(kinds, psidx, 2)
             for kinds in ("bm", "mb"):
                 all_reads(kinds, (0, 0), 3)
@@ -486,9 +489,12 @@ class ChainMultiallelic(Chain):
     def bounds(self, tier):
         sh = self.shapes(tier)
         return ("%d shapes: V <= %d diploid records, each with one ('b') or two ('m') ALT alleles [%s], in <= 2 phase sets, R <= %d error-free reads each covering a non-empty subset of one phase set's variants "
-                "(quick: every multiset of <= 2 reads for bm/mb, selected read sets for V = 3; thorough: every multiset of <= 2 reads of which one covers a biallelic record for V = 3, every multiset of <= 3 reads for V = 2, one V = 4 shape); "
+                "(%s); "
                 "symbolic: original phased genotype of every record (2 orders for 'b'; 0|1, 1|0, 0|2, 2|0, 1|2, 2|1 for 'm'), haplotype of every read, every quality in 1..3, which records are unphased in the second input"
-                % (len(sh), max(s["V"] for s in sh), ", ".join(sorted({s["kinds"] for s in sh})), max(len(s["reads"]) for s in sh)))
+                % (len(sh), max(s["V"] for s in sh), ", ".join(sorted({s["kinds"] for s in sh})), max(len(s["reads"]) for s in sh),
+                   "every multiset of <= 2 reads for bm/mb, selected read sets for V = 3" if tier == "quick" else
+                   "V = 3 with one 2-ALT record: every multiset of <= 2 reads of which one covers a biallelic record; V = 3 with two 2-ALT records: every multiset of <= 2 reads that all cover the biallelic record; "
+                   "V = 2: every multiset of <= 3 reads; one V = 4 shape"))
 
 
 SUBCHECKS = {c.name: c for c in [Chain(), ChainMultiallelic()]}
